@@ -35,9 +35,12 @@ def int_value(t):
 
 def expected_ok(t):
     """None if the term must be rejected, else (tag, elements)"""
-    if t[0] != "t" or not t[1] or t[1][0][0] != "i" or not 0 <= t[1][0][1] <= 255:
+    if t[0] != "t" or not t[1]:
         return None
-    return t[1][0][1], t[1]
+    v = int_value(t[1][0])      # the tag is an integer however it is encoded (as_integer; fix commit 10e629c)
+    if v is None or not 0 <= v <= 255:
+        return None
+    return v, t[1]
 
 
 def check_msg(tag, els, impl, after_wire=False):
@@ -141,8 +144,12 @@ def run(ctx):
     for _ in range(ctx.budget(1500, 30000)):
         tag = rng.choice(list(PROTOCOL) + [rng.randrange(256)])
         ar = rng.choice([PROTOCOL.get(tag, (3,))[0], rng.randrange(1, 11)])
-        els = [("i", tag)] + [gen_field(rng) for _ in range(ar - 1)]
+        head = ("i", tag) if rng.random() < 0.9 else ("g", False, bytes([tag]) + bytes(rng.choice([0, 0, 1, 7, 8])))
+        els = [head] + [gen_field(rng) for _ in range(ar - 1)]
         cases.append("%s %s" % (rng.choice(["ctl", "ctl", "ctlw"]), etf.show(("t", els))))
+    for head in [("g", True, b"\x02"), ("g", False, b"\x00\x01"), ("g", False, b""), ("g", True, b"\x00"), ("g", False, bytes(9)),
+                 ("g", False, b"\x02" + bytes(8)), ("g", False, b"\xff" * 8), ("g", True, bytes(7) + b"\x80")]:
+        cases.append("ctl " + etf.show(("t", [head, pid, pid])))
 
     def nontrivial(c, impl):
         return c if c.split()[1] == "t" and int(c.split()[2]) >= 2 else None
